@@ -27,6 +27,7 @@
 import Batchie.Lemmas.OrchRun
 import Batchie.Lemmas.OrchGenerated
 import Batchie.Lemmas.OrchFake
+import Batchie.Lemmas.OrchInputs
 
 namespace Batchie.Props.C19
 open Batchie.Orchestrator
@@ -195,6 +196,84 @@ theorem C19_predecessor (cfg : Cfg) (hmode : cfg.mode = .retrospective) (hB : 1 
     simp [List.length_eq_zero_iff.mp hlen] at hlast
   · rw [h1] at h2 ⊢
     exact ⟨((nextOfProg_of_CRun cfg hc).1 l hlast).2, h2⟩
+
+/-- every step of an uninterrupted run was planned on the clean directory holding exactly the steps before it -/
+theorem CRun_mem_planned (cfg : Cfg) {p : Prog} (hc : CRun cfg p) :
+    ∀ l ∈ p.flat, ∃ q, CRun cfg q ∧ ¬ isFinished cfg q ∧ planLaunch cfg q = .ok l := by
+  induction hc with
+  | nil => intro l hl; simp [Prog.empty, Prog.flat] at hl
+  | @push q l0 hq hnf hl0 ih =>
+    intro l hl
+    rw [Prog.flat_push, List.mem_append] at hl
+    rcases hl with hl | hl
+    · exact ih l hl
+    · simp at hl; subst hl; exact ⟨q, hq, hnf, hl0⟩
+
+/-- **every launched step of every (interrupted or uninterrupted) retrospective execution, at every plate index of every
+    batch size**, other than the very first step `(0,0)`: its `--screen` / `--training_screen` is the output screen
+    (`advanced_screen.h5` when there is one) of the step whose number is exactly one less -- the immediate predecessor,
+    not plate_0 of the iteration, not an older step. -/
+theorem C19_every_launch_from_predecessor (cfg : Cfg) (hmode : cfg.mode = .retrospective) (hB : 1 ≤ cfg.B)
+    (hml : MarkerLast cfg) (sched : List (Option Nat)) :
+    ∀ l ∈ launchedOf (runSched cfg sched Tree.empty []).events,
+      (l.iter = 0 ∧ l.plate = 0 ∧ l.screen = none) ∨
+      ∃ lp, stepNo cfg.B lp + 1 = stepNo cfg.B l ∧
+        l.screen = (screenOf ⟨lp.plate, some (cfg.pubs lp)⟩).map (fun f => ⟨lp.iter, lp.plate, f⟩) ∧ l.screen ≠ none := by
+  intro l hl
+  obtain ⟨p, jk, hg⟩ := runSched_inv cfg hml hB sched (GI.init cfg)
+  have hplanned : ∃ q, CRun cfg q ∧ planLaunch cfg q = .ok l := by
+    rcases hg.launched l hl with h1 | ⟨_, h2⟩
+    · obtain ⟨q, hq, _, hpl⟩ := CRun_mem_planned cfg hg.crun l h1
+      exact ⟨q, hq, hpl⟩
+    · exact ⟨p, hg.crun, h2⟩
+  obtain ⟨q, hq, hpl⟩ := hplanned
+  cases hlast : q.flat.getLast? with
+  | none =>
+    left
+    have he : q.flat = [] := by simpa using hlast
+    have hn := (nextOfProg_of_CRun cfg hq).2 he
+    have hpos := planLaunch_pos cfg hpl
+    have h0 : q.cs.length = 0 ∧ q.cur.length = 0 := by
+      have h1 := nextOfProg_iter cfg q
+      have h2 := nextOfProg_plate cfg q
+      rw [hn] at h1 h2
+      exact ⟨h1.symm, h2.symm⟩
+    refine ⟨by omega, by omega, ?_⟩
+    unfold planLaunch at hpl
+    rw [hmode, hn] at hpl
+    simp [launchOf] at hpl
+    rw [← hpl]
+  | some lp =>
+    right
+    obtain ⟨h1, h2⟩ := C19_predecessor cfg hmode hB hq hpl lp hlast
+    refine ⟨lp, ?_, h1, h2⟩
+    rw [stepNo_planLaunch cfg hB hq hpl]
+    have hs := hq.steps cfg hB
+    have hne : q.flat ≠ [] := by intro e; rw [e] at hlast; simp at hlast
+    have : (q.flat.map (stepNo cfg.B)).getLast? = some (stepNo cfg.B lp) := by
+      rw [List.getLast?_map, hlast]; rfl
+    rw [hs, List.getLast?_range] at this
+    have hpos : 0 < q.flat.length := List.length_pos_iff.mpr hne
+    split at this
+    · omega
+    · injection this with this; omega
+
+/-- **later plates of an iteration (plate index 1, 2, 3, ...), both modes**: the posterior samples / distance chunks are
+    those of plate_0 of the SAME iteration and `--excludes` is exactly the list of selections recorded by the earlier
+    plates of that iteration -/
+theorem C19_later_plate_inputs (cfg : Cfg) {p : Prog} {l' : Launch}
+    (hl : planLaunch cfg p = .ok l') (hw : l'.wf = .nextPlate) :
+    ∃ l0 rest, p.cur = l0 :: rest ∧
+      l'.chains = (cfg.pubs l0).filter (fun f => f.kind.isThetas) ++ (cfg.pubs l0).filter (fun f => f.kind.isDist) ∧
+      l'.excludes = (let s := p.cur.filterMap (fun l => (findKind .selected (cfg.pubs l)).map (·.content))
+                     if s.isEmpty then none else some s) :=
+  planLaunch_nextPlate_inputs cfg hl hw
+
+/-- **first plate of a later iteration**: the test screen comes from `iter_0/plate_0`, i.e. from the first step of the run -/
+theorem C19_first_plate_test_screen (cfg : Cfg) (hB : 1 ≤ cfg.B) {p : Prog} (hc : CRun cfg p) {l' : Launch}
+    (hl : planLaunch cfg p = .ok l') (hw : l'.wf = .firstBatch) :
+    ∃ l00 tf, p.flat.head? = some l00 ∧ l'.test = some ⟨0, 0, tf⟩ ∧ testScreenOf ⟨0, some (cfg.pubs l00)⟩ = some tf :=
+  planLaunch_firstBatch_test cfg hB hc hl hw
 
 /-- `C19_resume` in terms of actual uninterrupted executions only (retrospective mode): there is a number `n` of
     uninterrupted calls of the step function from nothing, such that the interrupted execution has completed
